@@ -89,6 +89,68 @@ func c19Attrs(attrs []bgp.PathAttributeInterface) string {
 	return strings.Join(l, " ")
 }
 
+// every family the harness puts into the RIB, with the TABLE_DUMPv2 subtype RFC 6396 / RFC 8050
+// assign to it (+6 for the ADD-PATH variant)
+var c19Families = []struct {
+	fam bgp.Family
+	sub mrt.MRTSubTypeTableDumpv2
+}{
+	{bgp.RF_IPv4_UC, mrt.RIB_IPV4_UNICAST}, {bgp.RF_IPv6_UC, mrt.RIB_IPV6_UNICAST},
+	{bgp.RF_IPv4_MC, mrt.RIB_IPV4_MULTICAST}, {bgp.RF_IPv6_MC, mrt.RIB_IPV6_MULTICAST},
+	{bgp.RF_IPv4_MPLS, mrt.RIB_GENERIC}, {bgp.RF_IPv6_MPLS, mrt.RIB_GENERIC},
+	{bgp.RF_IPv4_VPN, mrt.RIB_GENERIC}, {bgp.RF_IPv6_VPN, mrt.RIB_GENERIC},
+	{bgp.RF_EVPN, mrt.RIB_GENERIC}, {bgp.RF_FS_IPv4_UC, mrt.RIB_GENERIC},
+}
+
+func c19Subtype(fam bgp.Family, addPath bool) mrt.MRTSubTypeTableDumpv2 {
+	st := mrt.RIB_GENERIC
+	for _, f := range c19Families {
+		if f.fam == fam {
+			st = f.sub
+		}
+	}
+	if addPath {
+		st += 6
+	}
+	return st
+}
+
+func c19Nlri(r *vRand, fam bgp.Family) (bgp.NLRI, error) {
+	v4 := func() netip.Prefix {
+		var a [4]byte
+		binary.BigEndian.PutUint32(a[:], 0x0a000000|uint32(r.intn(1<<16))<<8)
+		return netip.PrefixFrom(netip.AddrFrom4(a), 16+r.intn(9)).Masked()
+	}
+	v6 := func() netip.Prefix {
+		var a [16]byte
+		binary.BigEndian.PutUint64(a[:], 0x20010db800000000|uint64(r.intn(1<<16)))
+		return netip.PrefixFrom(netip.AddrFrom16(a), 48+r.intn(17)).Masked()
+	}
+	rd := bgp.NewRouteDistinguisherTwoOctetAS(uint16(65000+r.intn(4)), uint32(1+r.intn(4)))
+	labels := *bgp.NewMPLSLabelStack(uint32(16 + r.intn(1000)))
+	switch fam {
+	case bgp.RF_IPv4_UC, bgp.RF_IPv4_MC:
+		return bgp.NewIPAddrPrefix(v4())
+	case bgp.RF_IPv6_UC, bgp.RF_IPv6_MC:
+		return bgp.NewIPAddrPrefix(v6())
+	case bgp.RF_IPv4_MPLS:
+		return bgp.NewLabeledIPAddrPrefix(v4(), labels)
+	case bgp.RF_IPv6_MPLS:
+		return bgp.NewLabeledIPAddrPrefix(v6(), labels)
+	case bgp.RF_IPv4_VPN:
+		return bgp.NewLabeledVPNIPAddrPrefix(v4(), labels, rd)
+	case bgp.RF_IPv6_VPN:
+		return bgp.NewLabeledVPNIPAddrPrefix(v6(), labels, rd)
+	case bgp.RF_EVPN:
+		p := v4()
+		return bgp.NewEVPNIPPrefixRoute(rd, bgp.EthernetSegmentIdentifier{Type: bgp.ESI_ARBITRARY, Value: make([]byte, 9)}, uint32(r.intn(100)), uint8(p.Bits()), p.Addr(), netip.IPv4Unspecified(), uint32(16+r.intn(1000)))
+	case bgp.RF_FS_IPv4_UC:
+		ip, _ := bgp.NewIPAddrPrefix(v4())
+		return bgp.NewFlowSpecUnicast(fam, []bgp.FlowSpecComponentInterface{bgp.NewFlowSpecDestinationPrefix(ip)})
+	}
+	return nil, fmt.Errorf("no generator for %s", fam)
+}
+
 func c19StartServer(t *testing.T) *BgpServer {
 	s := NewBgpServer()
 	go s.Serve()
@@ -117,7 +179,11 @@ func c19StartServer(t *testing.T) *BgpServer {
 			if src.addPath {
 				mode = bgp.BGP_ADD_PATH_RECEIVE
 			}
-			p.fsm.familyMap.Store(map[bgp.Family]bgp.BGPAddPathMode{bgp.RF_IPv4_UC: mode, bgp.RF_IPv6_UC: mode})
+			fm := map[bgp.Family]bgp.BGPAddPathMode{}
+			for _, f := range c19Families {
+				fm[f.fam] = mode
+			}
+			p.fsm.familyMap.Store(fm)
 			p.fsm.lock.Lock()
 			if src.as4 {
 				p.fsm.capMap[bgp.BGP_CAP_FOUR_OCTET_AS_NUMBER] = []bgp.ParameterCapabilityInterface{bgp.NewCapFourOctetASNumber(src.as)}
@@ -235,17 +301,16 @@ func c19Round(t *testing.T, o *vOut, r *vRand, round int) {
 		nPfx = 4
 	}
 	for i := 0; i < nPfx; i++ {
-		v6 := r.chance(35)
-		var prefix netip.Prefix
-		fam := bgp.RF_IPv4_UC
-		if v6 {
-			var a [16]byte
-			binary.BigEndian.PutUint64(a[:], 0x20010db800000000|uint64(r.intn(1<<16)))
-			prefix, fam = netip.PrefixFrom(netip.AddrFrom16(a), 48+r.intn(17)).Masked(), bgp.RF_IPv6_UC
-		} else {
-			var a [4]byte
-			binary.BigEndian.PutUint32(a[:], 0x0a000000|uint32(r.intn(1<<16))<<8)
-			prefix = netip.PrefixFrom(netip.AddrFrom4(a), 16+r.intn(9)).Masked()
+		// family: stratified over every family of the table, unicast a little more often
+		fam := c19Families[(round*7+i*3+r.intn(2))%len(c19Families)].fam
+		if r.chance(25) {
+			fam = []bgp.Family{bgp.RF_IPv4_UC, bgp.RF_IPv6_UC}[r.intn(2)]
+		}
+		v6 := fam.Afi() == bgp.AFI_IP6
+		nlri0, err := c19Nlri(r, fam)
+		if err != nil || nlri0 == nil {
+			o.stat("nlri_ctor_error_"+fam.String(), 1)
+			continue
 		}
 		// which sources hold this destination: stratified so that every mix occurs
 		var srcs []int
@@ -278,25 +343,34 @@ func c19Round(t *testing.T, o *vOut, r *vRand, round int) {
 				nPaths = 1 + r.intn(3)
 			}
 			for k := 0; k < nPaths; k++ {
-				nlri, _ := bgp.NewIPAddrPrefix(prefix)
+				nlri := nlri0
 				attrs := []bgp.PathAttributeInterface{bgp.NewPathAttributeOrigin(uint8(r.intn(3)))}
 				if src.addr.IsValid() {
 					attrs = append(attrs, bgp.NewPathAttributeAsPath([]bgp.AsPathParamInterface{bgp.NewAs4PathParam(2, []uint32{src.as, uint32(64512 + r.intn(1000)), uint32(r.pick(65000, 4200000000, 1))})}))
 				} else {
 					attrs = append(attrs, bgp.NewPathAttributeAsPath(nil))
 				}
-				if v6 {
-					var a [16]byte
-					binary.BigEndian.PutUint64(a[:], 0x20010db8ffff0000)
-					a[15] = byte(1 + r.intn(200))
-					mp, err := bgp.NewPathAttributeMpReachNLRI(fam, []bgp.PathNLRI{{NLRI: nlri}}, netip.AddrFrom16(a))
-					if err != nil {
-						t.Fatal(err)
-					}
-					attrs = append(attrs, mp)
-				} else {
+				if fam == bgp.RF_IPv4_UC {
 					nh, _ := bgp.NewPathAttributeNextHop(netip.AddrFrom4([4]byte{192, 0, 2, byte(1 + r.intn(200))}))
 					attrs = append(attrs, nh)
+				} else {
+					nhAddr := netip.AddrFrom4([4]byte{192, 0, 2, byte(1 + r.intn(200))})
+					if v6 {
+						var a [16]byte
+						binary.BigEndian.PutUint64(a[:], 0x20010db8ffff0000)
+						a[15] = byte(1 + r.intn(200))
+						nhAddr = netip.AddrFrom16(a)
+					}
+					nhs := []netip.Addr{nhAddr}
+					if fam == bgp.RF_FS_IPv4_UC {
+						nhs = nil // FlowSpec carries no next hop
+					}
+					mp, err := bgp.NewPathAttributeMpReachNLRI(fam, []bgp.PathNLRI{{NLRI: nlri}}, nhs...)
+					if err != nil {
+						o.stat("mpreach_ctor_error_"+fam.String(), 1)
+						continue
+					}
+					attrs = append(attrs, mp)
 				}
 				if r.chance(50) {
 					attrs = append(attrs, bgp.NewPathAttributeMultiExitDisc(r.u32()))
@@ -316,10 +390,10 @@ func c19Round(t *testing.T, o *vOut, r *vRand, round int) {
 				}
 				res, err := s.AddPath(apiutil.AddPathRequest{Paths: []*apiutil.Path{p}})
 				if err != nil || (len(res) > 0 && res[0].Error != nil) {
-					o.stat("addpath_refused_"+src.name, 1)
+					o.stat("addpath_refused_"+fam.String(), 1)
 					continue
 				}
-				ledger = append(ledger, added{fam, prefix.String(), si, p.RemoteID, src.name})
+				ledger = append(ledger, added{fam, nlri0.String(), si, p.RemoteID, src.name})
 				o.stat("added_"+fam.String()+"_"+src.name, 1)
 			}
 		}
@@ -390,6 +464,7 @@ func c19Round(t *testing.T, o *vOut, r *vRand, round int) {
 		got := map[string]int{}      // entry (without path id) -> count
 		gotPID := map[string]int{}   // entry of an ADD-PATH record, with path id -> count
 		gotCount := map[string]int{} // family prefix -> entries
+		gotSub := map[string][]int{} // family prefix -> subtypes of its records
 		for i, tk := range toks {
 			h, err := mrt.ParseHeader(tk)
 			if err != nil {
@@ -398,8 +473,9 @@ func c19Round(t *testing.T, o *vOut, r *vRand, round int) {
 			}
 			m, err := mrt.ParseBody(tk[mrt.MRT_COMMON_HEADER_LEN:], h)
 			if err != nil {
-				o.fail("mrt-dump-unparseable", map[string]any{"record": c19SrvHex(tk), "err": err.Error(), "rib": ribDesc()})
-				return
+				// the routes of this record then show up as missing, family by family, below
+				o.fail("mrt-dump-unparseable", map[string]any{"subtype": h.SubType, "record": c19SrvHex(tk), "err": err.Error()})
+				continue
 			}
 			switch b := m.Body.(type) {
 			case *mrt.PeerIndexTable:
@@ -413,8 +489,22 @@ func c19Round(t *testing.T, o *vOut, r *vRand, round int) {
 			case *mrt.Rib:
 				st := mrt.MRTSubTypeTableDumpv2(h.SubType)
 				addPath := st >= mrt.RIB_IPV4_UNICAST_ADDPATH
-				fam := map[mrt.MRTSubTypeTableDumpv2]bgp.Family{mrt.RIB_IPV4_UNICAST: bgp.RF_IPv4_UC, mrt.RIB_IPV6_UNICAST: bgp.RF_IPv6_UC,
-					mrt.RIB_IPV4_UNICAST_ADDPATH: bgp.RF_IPv4_UC, mrt.RIB_IPV6_UNICAST_ADDPATH: bgp.RF_IPv6_UC}[st]
+				// the family as a reader of the file learns it: implied by the subtype, or the
+				// AFI/SAFI carried by RIB_GENERIC
+				base := st
+				if addPath {
+					base -= 6
+				}
+				fam, specific := map[mrt.MRTSubTypeTableDumpv2]bgp.Family{mrt.RIB_IPV4_UNICAST: bgp.RF_IPv4_UC, mrt.RIB_IPV4_MULTICAST: bgp.RF_IPv4_MC,
+					mrt.RIB_IPV6_UNICAST: bgp.RF_IPv6_UC, mrt.RIB_IPV6_MULTICAST: bgp.RF_IPv6_MC}[base]
+				if !specific {
+					fam = b.Family
+				}
+				if want := c19Subtype(fam, addPath); st != want {
+					o.fail("mrt-dump-family-roundtrip:"+fam.String(), map[string]any{"what": "subtype", "subtype": st, "rfc_subtype": want, "prefix": b.Prefix.String()})
+				}
+				o.stat(fmt.Sprintf("dump_record_%s_subtype%d", fam, st), 1)
+				gotSub[fam.String()+" "+b.Prefix.String()] = append(gotSub[fam.String()+" "+b.Prefix.String()], int(st))
 				for _, e := range b.Entries {
 					if int(e.PeerIndex) >= len(peers) {
 						o.fail("mrt-dump-peer-index-out-of-table", map[string]any{"index": e.PeerIndex, "peers": len(peers)})
@@ -431,6 +521,42 @@ func c19Round(t *testing.T, o *vOut, r *vRand, round int) {
 				}
 			default:
 				o.fail("mrt-dump-unexpected-body", fmt.Sprintf("%T", m.Body))
+			}
+		}
+		// family by family: every route of the table comes back, under the family's subtype
+		famWant, famGot := map[string]map[string]int{}, map[string]map[string]int{}
+		for _, w := range want {
+			if famWant[w.family] == nil {
+				famWant[w.family] = map[string]int{}
+			}
+			famWant[w.family][w.key(false)]++
+		}
+		for k, n := range got {
+			f := strings.SplitN(k, " ", 2)[0]
+			if famGot[f] == nil {
+				famGot[f] = map[string]int{}
+			}
+			famGot[f][k] = n
+		}
+		for f, ws := range famWant {
+			missing := []string{}
+			for k, n := range ws {
+				if famGot[f][k] != n {
+					missing = append(missing, k)
+				}
+			}
+			if len(missing) > 0 {
+				sort.Strings(missing)
+				o.fail("mrt-dump-family-roundtrip:"+f, map[string]any{"what": "routes of the table that do not come back from the dump", "routes": missing[:min(len(missing), 4)], "count": len(missing)})
+			}
+			o.stat("dump_family_"+f, len(ws))
+		}
+		for f, gs := range famGot {
+			for k := range gs {
+				if famWant[f][k] == 0 {
+					o.fail("mrt-dump-family-roundtrip:"+f, map[string]any{"what": "route in the dump that is not in the table", "route": k})
+					break
+				}
 			}
 		}
 		// number of entries per prefix
@@ -517,6 +643,7 @@ func c19Round(t *testing.T, o *vOut, r *vRand, round int) {
 		type sent struct {
 			src     c19Src
 			payload []byte
+			addPath bool // ADD-PATH receive of the neighbour for the family of this update
 		}
 		var sents []sent
 		for _, src := range c19Sources {
@@ -529,10 +656,17 @@ func c19Round(t *testing.T, o *vOut, r *vRand, round int) {
 					paths = append(paths, wnt.path)
 				}
 			}
+			var nbr *peer
+			_ = s.mgmtOperation(func() error { nbr = s.neighborMap[src.addr]; return nil }, false)
+			nbrConf := s.toConfig(nbr, false)
 			for _, p := range paths {
 				opt := &bgp.MarshallingOption{}
-				if src.addPath {
+				ap := nbrConf.IsAddPathReceiveEnabled(p.GetFamily())
+				if ap {
 					opt.AddPath = map[bgp.Family]bgp.BGPAddPathMode{p.GetFamily(): bgp.BGP_ADD_PATH_RECEIVE}
+				}
+				if ap {
+					o.stat("update_addpath_"+p.GetFamily().String(), 1)
 				}
 				for _, u := range table.CreateUpdateMsgFromPaths([]*table.Path{p}, opt) {
 					payload, err := u.Serialize(opt)
@@ -542,7 +676,7 @@ func c19Round(t *testing.T, o *vOut, r *vRand, round int) {
 					var peer *peer
 					_ = s.mgmtOperation(func() error { peer = s.neighborMap[src.addr]; return nil }, false)
 					s.notifyPrePolicyUpdateWatcher(peer, []*table.Path{p}, u, time.Unix(int64(1700000000+len(sents)), 0), payload)
-					sents = append(sents, sent{src, payload})
+					sents = append(sents, sent{src, payload, ap})
 				}
 			}
 		}
@@ -571,16 +705,16 @@ func c19Round(t *testing.T, o *vOut, r *vRand, round int) {
 			if err != nil {
 				// an ADD-PATH payload cannot be parsed without options by ParseBody; the framing
 				// and the BGP4MP header are checked by hand in that case
-				if !sn.src.addPath {
+				if !sn.addPath {
 					o.fail("mrt-updates-unparseable", map[string]any{"record": c19SrvHex(tk), "err": err.Error()})
 					continue
 				}
 			}
 			wantSub := mrt.MESSAGE
 			switch {
-			case sn.src.addPath && sn.src.as4:
+			case sn.addPath && sn.src.as4:
 				wantSub = mrt.MESSAGE_AS4_ADDPATH
-			case sn.src.addPath:
+			case sn.addPath:
 				wantSub = mrt.MESSAGE_ADDPATH
 			case sn.src.as4:
 				wantSub = mrt.MESSAGE_AS4
@@ -722,7 +856,11 @@ func c19Round(t *testing.T, o *vOut, r *vRand, round int) {
 		}
 		addPathBoth := func(ph bmp.BMPPeerHeader) []*bgp.MarshallingOption {
 			if ph.PeerType == bmp.BMP_PEER_TYPE_LOCAL_RIB {
-				return []*bgp.MarshallingOption{{AddPath: map[bgp.Family]bgp.BGPAddPathMode{bgp.RF_IPv4_UC: bgp.BGP_ADD_PATH_BOTH, bgp.RF_IPv6_UC: bgp.BGP_ADD_PATH_BOTH}}}
+				m := map[bgp.Family]bgp.BGPAddPathMode{}
+				for _, f := range c19Families {
+					m[f.fam] = bgp.BGP_ADD_PATH_BOTH
+				}
+				return []*bgp.MarshallingOption{{AddPath: m}}
 			}
 			return nil
 		}
